@@ -294,16 +294,18 @@ Definition float_shape (txt : bytes) : Prop :=
     (sg2 = [] \/ sg2 = [c_minus]) /\ all_digits es = true /\ es <> [].
 
 (* strconv is external code: that a float's canonical text is read back as the same float is a
-   premise (validated differentially), not a theorem *)
-Definition float_ok (f : f64) : Prop :=
+   premise (validated differentially), not a theorem.  float_exact: read back as exactly f (false
+   of negative zero since Float.MarshalJSON drops its sign); float_ok, below: read back as f with
+   the sign of a zero dropped (the premise of the property theorems) *)
+Definition float_exact (f : f64) : Prop :=
   float_shape (float_marshal cfg_fixed f) /\ parse_float (float_marshal cfg_fixed f) = Some f.
 
-Fixpoint readable (v : jv) : Prop :=
+Fixpoint readable_exact (v : jv) : Prop :=
   match v with
   | JInt z => in_int64 z = true
-  | JFloat f => float_ok f
-  | JArr l => all_list readable l
-  | JObj m => all_list (fun kv => readable (snd kv)) m
+  | JFloat f => float_exact f
+  | JArr l => all_list readable_exact l
+  | JObj m => all_list (fun kv => readable_exact (snd kv)) m
   | _ => True
   end.
 
@@ -322,15 +324,6 @@ Fixpoint ints_ok (v : jv) : bool :=
   | JObj m => forallb (fun kv => ints_ok (snd kv)) m
   | _ => true
   end.
-
-Lemma readable_float_free v : float_free v = true -> ints_ok v = true -> readable v.
-Proof.
-  induction v using jv_ind2; cbn; auto; try discriminate.
-  - intros H1 H2. rewrite forallb_forall in H1, H2. apply all_list_Forall.
-    rewrite Forall_forall in *. auto.
-  - intros H1 H2. rewrite forallb_forall in H1, H2. apply all_list_Forall.
-    rewrite Forall_forall in *. auto.
-Qed.
 
 Lemma span_digits_all ds b rest : all_digits ds = true -> is_digit b = false ->
   span_digits (ds ++ b :: rest) = (ds, b :: rest).
@@ -438,8 +431,8 @@ Lemma vstart_quote : vstart c_quote. Proof. repeat split; cbn; lia. Qed.
 Lemma vstart_lbracket : vstart (ch 91). Proof. repeat split; cbn; lia. Qed.
 Lemma vstart_lbrace : vstart (ch 123). Proof. repeat split; cbn; lia. Qed.
 
-(* the printed form of a readable value starts with a byte that can only begin a value *)
-Lemma print_vstart v o : print_ v = Ok o -> readable v -> exists c r, o = c :: r /\ vstart c.
+(* the printed form of a readable_exact value starts with a byte that can only begin a value *)
+Lemma print_vstart v o : print_ v = Ok o -> readable_exact v -> exists c r, o = c :: r /\ vstart c.
 Proof.
   destruct v; intros H R.
   - discriminate.
@@ -460,7 +453,7 @@ Qed.
 (* ------------------------------------------------------------------------------------------ *)
 (* round trip                                                                                   *)
 (* ------------------------------------------------------------------------------------------ *)
-Definition RT (v : jv) : Prop := forall o, print_ v = Ok o -> readable v ->
+Definition RT (v : jv) : Prop := forall o, print_ v = Ok o -> readable_exact v ->
   forall s sk rest fuel, value_allowed s = true -> term rest -> (need v <= fuel)%nat ->
   hn fuel (mkDec s sk (o ++ rest)) = Ok (Some (strip v), mkDec (value_end s) sk rest).
 
@@ -483,7 +476,7 @@ Proof.
     destruct (obj_body cfg_fixed print_ m false true); try discriminate. inversion H. cbn. auto.
 Qed.
 
-Lemma arr_loop l : Forall RT l -> all_list readable l ->
+Lemma arr_loop l : Forall RT l -> all_list readable_exact l ->
   forall first body, arr_body print_ l first = Ok body ->
   forall s sk rest acc fuel, (fold_right (fun x a => S (need x + a)) 2 l <= fuel)%nat ->
   ha fuel (mkDec (if first then ArrayStart else ArrayComma) (s :: sk) (body ++ ch 93 :: rest)) acc
@@ -515,7 +508,7 @@ Proof.
     cbn [rev map]. now rewrite <- app_assoc.
 Qed.
 
-Lemma obj_loop m : Forall (fun kv => RT (snd kv)) m -> all_list (fun kv => readable (snd kv)) m ->
+Lemma obj_loop m : Forall (fun kv => RT (snd kv)) m -> all_list (fun kv => readable_exact (snd kv)) m ->
   forall first written body, obj_body cfg_fixed print_ m first written = Ok body ->
   forall s sk rest acc fuel,
   (fold_right (fun kv a => if is_null (snd kv) then a else S (need (snd kv) + a)) 2 m <= fuel)%nat ->
@@ -596,7 +589,7 @@ Qed.
 (* ------------------------------------------------------------------------------------------ *)
 (* fuel bound, top level                                                                        *)
 (* ------------------------------------------------------------------------------------------ *)
-Lemma need_bound v : forall o, print_ v = Ok o -> readable v -> (need v <= 4 * length o)%nat.
+Lemma need_bound v : forall o, print_ v = Ok o -> readable_exact v -> (need v <= 4 * length o)%nat.
 Proof.
   induction v using jv_ind2; intros o Ho HR;
     try (destruct (print_vstart _ _ Ho HR) as [c0 [r0 [-> _]]]; cbn [need length]; lia).
@@ -605,7 +598,7 @@ Proof.
     inversion Ho; subst. cbn [need length]. rewrite app_length. cbn [length].
     assert (HB : forall first body, arr_body print_ l first = Ok body ->
               (fold_right (fun x a => S (need x + a)) 2 l <= 2 + 4 * length body + (if first then 1 else 0))%nat).
-    { clear Eb Ho body. cbn [readable] in HR. induction H as [|x l Hx HF IH]; intros first body Hb.
+    { clear Eb Ho body. cbn [readable_exact] in HR. induction H as [|x l Hx HF IH]; intros first body Hb.
       - inversion Hb. cbn. lia.
       - rewrite arr_body_cons in Hb. destruct HR as [Rx HR].
         destruct (print_ x) as [a| |] eqn:Ea; try discriminate. cbn [bind] in Hb.
@@ -618,7 +611,7 @@ Proof.
     inversion Ho; subst. cbn [need length]. rewrite app_length. cbn [length].
     assert (HB : forall first written body, obj_body cfg_fixed print_ m first written = Ok body ->
               (fold_right (fun kv a => if is_null (snd kv) then a else S (need (snd kv) + a)) 2 m <= 2 + 4 * length body)%nat).
-    { clear Eb Ho body. cbn [readable] in HR. induction H as [|[k x] m Hx HF IH]; intros first written body Hb.
+    { clear Eb Ho body. cbn [readable_exact] in HR. induction H as [|[k x] m Hx HF IH]; intros first written body Hb.
       - inversion Hb. cbn. lia.
       - rewrite obj_body_cons in Hb. cbn [fix_nullkey fix_comma cfg_fixed negb] in Hb. rewrite andb_false_r in Hb.
         destruct HR as [Rx HR]. cbn [snd] in Rx, Hx.
@@ -633,13 +626,92 @@ Proof.
     specialize (HB true false body Eb). lia.
 Qed.
 
-Lemma parse_print v o : print_ v = Ok o -> readable v -> parse o = Ok (strip v).
+Lemma parse_print_exact v o : print_ v = Ok o -> readable_exact v -> parse o = Ok (strip v).
 Proof.
   intros Ho HR. unfold parse, unmarshal_with.
   pose proof (round_trip_value v o Ho HR TopValue [] [] (fuel_for o) eq_refl I) as H.
   rewrite app_nil_r in H. fold idm. rewrite H.
   - reflexivity.
   - pose proof (need_bound v o Ho HR). unfold fuel_for. lia.
+Qed.
+
+(* ------------------------------------------------------------------------------------------ *)
+(* the sign of zero: Float.MarshalJSON writes negative zero as zero                              *)
+(* ------------------------------------------------------------------------------------------ *)
+Lemma float_marshal_unsign f : float_marshal cfg_fixed (unsign_zero f) = float_marshal cfg_fixed f.
+Proof. unfold float_marshal. cbn [fix_negzero cfg_fixed]. now rewrite unsign_zero_idem. Qed.
+
+(* every zero, whatever its sign, has the one form 0.0E0 *)
+Lemma float_marshal_zero n e : float_marshal cfg_fixed (F64 n 0 e) = bs "0.0E0".
+Proof. vm_compute. reflexivity. Qed.
+
+(* the premise of the property theorems: the text Float.MarshalJSON writes for f has the float
+   shape and strconv.ParseFloat reads it back as f, a zero without its sign *)
+Definition float_ok (f : f64) : Prop :=
+  float_shape (float_marshal cfg_fixed f) /\ parse_float (float_marshal cfg_fixed f) = Some (unsign_zero f).
+
+Fixpoint readable (v : jv) : Prop :=
+  match v with
+  | JInt z => in_int64 z = true
+  | JFloat f => float_ok f
+  | JArr l => all_list readable l
+  | JObj m => all_list (fun kv => readable (snd kv)) m
+  | _ => True
+  end.
+
+Lemma float_ok_exact f : float_ok f -> float_exact (unsign_zero f).
+Proof. unfold float_ok, float_exact. now rewrite float_marshal_unsign. Qed.
+
+Lemma readable_unsign v : readable v -> readable_exact (unsign v).
+Proof.
+  induction v using jv_ind2; cbn [unsign readable readable_exact]; auto.
+  - apply float_ok_exact.
+  - intros HR. apply all_list_Forall. apply all_list_Forall in HR.
+    rewrite Forall_forall in *. intros y Hy. apply in_map_iff in Hy. destruct Hy as [x [<- Hx]]. auto.
+  - intros HR. apply all_list_Forall. apply all_list_Forall in HR.
+    rewrite Forall_forall in *. intros y Hy. apply in_map_iff in Hy. destruct Hy as [x [<- Hx]]. cbn. auto.
+Qed.
+
+Lemma arr_body_unsign l : Forall (fun v => print_ (unsign v) = print_ v) l ->
+  forall first, arr_body print_ (map unsign l) first = arr_body print_ l first.
+Proof.
+  induction 1 as [|x l Hx HF IH]; intros first; auto. cbn [map]. rewrite !arr_body_cons, Hx.
+  destruct (print_ x); cbn [bind]; auto. now rewrite IH.
+Qed.
+
+Lemma obj_body_unsign m : Forall (fun kv => print_ (unsign (snd kv)) = print_ (snd kv)) m ->
+  forall first written,
+  obj_body cfg_fixed print_ (map (onval unsign) m) first written = obj_body cfg_fixed print_ m first written.
+Proof.
+  induction 1 as [|[k x] m Hx HF IH]; intros first written; auto.
+  cbn [map]. unfold onval at 1. cbn [fst snd] in *. rewrite !obj_body_cons, is_null_unsign, Hx.
+  destruct (is_null x && negb (fix_nullkey cfg_fixed)); [apply IH|].
+  destruct (encode_string k); cbn [bind]; auto.
+  destruct (is_null x); [apply IH|].
+  destruct (print_ x); cbn [bind]; auto. now rewrite IH.
+Qed.
+
+(* MarshalJSON never sees the sign of a zero *)
+Lemma marshal_unsign v : print_ (unsign v) = print_ v.
+Proof.
+  induction v using jv_ind2; auto.
+  - cbn. now rewrite float_marshal_unsign.
+  - cbn [unsign]. rewrite !marshal_arr. now rewrite (arr_body_unsign l H).
+  - rewrite unsign_obj, !marshal_obj. now rewrite (obj_body_unsign m H).
+Qed.
+
+Lemma parse_print v o : print_ v = Ok o -> readable v -> parse o = Ok (strip (unsign v)).
+Proof.
+  intros Ho HR. apply parse_print_exact; [now rewrite marshal_unsign | now apply readable_unsign].
+Qed.
+
+Lemma readable_float_free v : float_free v = true -> ints_ok v = true -> readable v.
+Proof.
+  induction v using jv_ind2; cbn; auto; try discriminate.
+  - intros H1 H2. rewrite forallb_forall in H1, H2. apply all_list_Forall.
+    rewrite Forall_forall in *. auto.
+  - intros H1 H2. rewrite forallb_forall in H1, H2. apply all_list_Forall.
+    rewrite Forall_forall in *. auto.
 Qed.
 
 (* ------------------------------------------------------------------------------------------ *)
@@ -776,26 +848,91 @@ Qed.
 Lemma parse_ints_ok t v : parse t = Ok v -> ints_ok v = true.
 Proof. apply parse_with_ints_ok. Qed.
 
-Lemma canon_parses_back t v o : parse t = Ok v -> floats_ok v -> canon t = Ok o -> parse o = Ok (norm v).
+(* the sign of a float zero is not content either: values equal up to it share a canonical form *)
+Lemma canon_invariant_zero t1 t2 v1 v2 o1 o2 :
+  parse t1 = Ok v1 -> parse t2 = Ok v2 -> unsign (norm v1) = unsign (norm v2) ->
+  canon t1 = Ok o1 -> canon t2 = Ok o2 -> o1 = o2.
+Proof.
+  intros P1 P2 Hn C1 C2.
+  pose proof (canon_prints_norm _ _ _ P1 C1) as H1. pose proof (canon_prints_norm _ _ _ P2 C2) as H2.
+  unfold print in *. rewrite <- marshal_unsign in H1, H2. rewrite Hn in H1. congruence.
+Qed.
+
+Lemma canon_parses_back t v o : parse t = Ok v -> floats_ok v -> canon t = Ok o -> parse o = Ok (unsign (norm v)).
 Proof.
   intros Hp Hf Hc. pose proof (canon_prints_norm _ _ _ Hp Hc) as Hn.
   assert (HR : readable (norm v)) by (apply readable_norm, readable_split; [eapply parse_ints_ok; eauto | auto]).
-  rewrite (parse_print _ _ Hn HR). now rewrite strip_norm.
+  rewrite (parse_print _ _ Hn HR). now rewrite strip_unsign, strip_norm.
 Qed.
 
 Lemma canon_idempotent t v o : parse t = Ok v -> floats_ok v -> canon t = Ok o -> canon o = Ok o.
 Proof.
   intros Hp Hf Hc. rewrite canon_spec, (canon_parses_back _ _ _ Hp Hf Hc). cbn [bind].
-  rewrite sortrec_norm. eapply canon_prints_norm; eauto.
+  rewrite sortrec_unsign, sortrec_norm. unfold print. rewrite marshal_unsign.
+  eapply canon_prints_norm; eauto.
 Qed.
 
 Lemma canon_injective t1 t2 v1 v2 o :
   parse t1 = Ok v1 -> parse t2 = Ok v2 -> floats_ok v1 -> floats_ok v2 ->
-  canon t1 = Ok o -> canon t2 = Ok o -> norm v1 = norm v2.
+  canon t1 = Ok o -> canon t2 = Ok o -> unsign (norm v1) = unsign (norm v2).
 Proof.
   intros P1 P2 F1 F2 C1 C2.
   pose proof (canon_parses_back _ _ _ P1 F1 C1) as H1. pose proof (canon_parses_back _ _ _ P2 F2 C2) as H2.
   congruence.
+Qed.
+
+(* two accepted texts have the same canonical form exactly when they have the same content *)
+Lemma canon_same_form_iff t1 t2 v1 v2 o1 o2 :
+  parse t1 = Ok v1 -> parse t2 = Ok v2 -> floats_ok v1 -> floats_ok v2 ->
+  canon t1 = Ok o1 -> canon t2 = Ok o2 -> (o1 = o2 <-> unsign (norm v1) = unsign (norm v2)).
+Proof.
+  intros P1 P2 F1 F2 C1 C2. split.
+  - intros <-. eapply canon_injective; eauto.
+  - intro Hn. exact (canon_invariant_zero t1 t2 v1 v2 o1 o2 P1 P2 Hn C1 C2).
+Qed.
+
+(* a float-free value is its own unsigned form *)
+Lemma unsign_float_free v : float_free v = true -> unsign v = v.
+Proof.
+  induction v using jv_ind2; cbn [float_free unsign]; auto; try discriminate.
+  - intros HF. rewrite forallb_forall in HF. f_equal. rewrite <- (map_id l) at 2. apply map_ext_Forall.
+    rewrite Forall_forall in *. auto.
+  - intros HF. rewrite forallb_forall in HF. f_equal. rewrite <- (map_id m) at 2. apply map_ext_Forall.
+    rewrite Forall_forall in *. intros [k x] Hx. cbn. f_equal. apply (H _ Hx). apply (HF _ Hx).
+Qed.
+
+Lemma float_free_norm v : float_free v = true -> float_free (norm v) = true.
+Proof.
+  unfold norm. intro HF.
+  assert (S : float_free (sortrec v) = true).
+  { revert HF. induction v using jv_ind2; auto.
+    - cbn. rewrite !forallb_forall. intros HF y Hy. apply in_map_iff in Hy. destruct Hy as [x [<- Hx]].
+      rewrite Forall_forall in H. auto.
+    - rewrite sortrec_obj. cbn [float_free]. rewrite !forallb_forall. intros HF y Hy.
+      apply (Permutation_in _ (sort_perm _)) in Hy. apply in_map_iff in Hy. destruct Hy as [x [<- Hx]].
+      rewrite Forall_forall in H. cbn. auto. }
+  revert S. generalize (sortrec v). clear. intro v. induction v using jv_ind2; auto.
+  - cbn. rewrite !forallb_forall. intros HF y Hy. apply in_map_iff in Hy. destruct Hy as [x [<- Hx]].
+    rewrite Forall_forall in H. auto.
+  - rewrite strip_obj. cbn [float_free]. rewrite !forallb_forall. intros HF y Hy.
+    apply filter_In in Hy. destruct Hy as [Hy _]. apply in_map_iff in Hy. destruct Hy as [x [<- Hx]].
+    rewrite Forall_forall in H. cbn. auto.
+Qed.
+
+Lemma canon_parses_back_float_free t v o :
+  parse t = Ok v -> float_free v = true -> canon t = Ok o -> parse o = Ok (norm v).
+Proof.
+  intros Hp Hf Hc. rewrite (canon_parses_back t v o Hp (floats_ok_float_free v Hf) Hc).
+  now rewrite (unsign_float_free _ (float_free_norm v Hf)).
+Qed.
+
+Lemma canon_injective_float_free t1 t2 v1 v2 o :
+  parse t1 = Ok v1 -> parse t2 = Ok v2 -> float_free v1 = true -> float_free v2 = true ->
+  canon t1 = Ok o -> canon t2 = Ok o -> norm v1 = norm v2.
+Proof.
+  intros P1 P2 F1 F2 C1 C2.
+  pose proof (canon_parses_back_float_free _ _ _ P1 F1 C1) as H1.
+  pose proof (canon_parses_back_float_free _ _ _ P2 F2 C2) as H2. congruence.
 Qed.
 
 (* member order: same content up to the order of members with different names *)
